@@ -660,8 +660,10 @@ class Prop(Check):
     ASSUMPTIONS = [
         "Sem decisions where the docs are silent: a rule application that contributes nothing creates no object / value; an empty "
         "regex match contributes nothing; a model whose top rule contributes nothing is ''; Comments are skipped also with "
-        "skipws off; eolterm removes \\n\\r from the active whitespace for the duration of the repetition; # takes each element "
-        "once, elements that can match nothing may be absent; a non-empty list as `name` is the documented hashability error",
+        "skipws off; eolterm removes \\n\\r from the active whitespace for the duration of the repetition; # matches each element "
+        "once, those that match something separated by the separator; when no further element can be taken every remaining one "
+        "must match nothing there (an element that matches something without its separator fails the group) and a separator "
+        "that no element follows is given back; a non-empty list as `name` is the documented hashability error",
         "the mirror follows /repo main: the C02-repaired multiplicity walk and the symmetric '?=' rejection, separator children told "
         "by the identity of the separator match (a rule may be called `sep`), the C03-repaired choice of an abstract rule's value; "
         "grammars / texts on which the pinned code would differ are compared like all others and only counted in the evidence "
